@@ -152,9 +152,9 @@ theorem bindGet_mem (b : List (Bytes × Bytes)) (hd : distinct (b.map (·.1)) = 
       simp only [bindGet, hne, if_false]
       exact ih hd.2 h
 
-/-- with declared, pairwise distinct constraint names the first-constraint check is the full check -/
+/-- with declared constraint names the per-parameter check of the compiled matcher is the full check -/
 theorem consOK_of_first (sat : Nat → Bytes → Bool) (cons : List (Bytes × Nat)) (b : List (Bytes × Bytes))
-    (hdecl : ∀ c ∈ cons, c.1 ∈ b.map (·.1)) (hdist : distinct (b.map (·.1)) = true) (hnodup : dupName cons = false)
+    (hdecl : ∀ c ∈ cons, c.1 ∈ b.map (·.1)) (hdist : distinct (b.map (·.1)) = true)
     (h : consFirstOK sat cons b = true) : consOK sat cons b = true := by
   unfold consOK
   rw [List.all_eq_true]
@@ -165,31 +165,14 @@ theorem consOK_of_first (sat : Nat → Bytes → Bool) (cons : List (Bytes × Na
   obtain ⟨k, v⟩ := kv
   simp only at hk
   subst hk
-  have hbg : bindGet k b = some v := bindGet_mem b hdist k v hkv
-  rw [hbg]
-  -- the first constraint under the name `k` is this one
-  have hfirst : firstCons k cons = some cid := by
-    clear hdecl hbg h
-    induction cons with
-    | nil => simp at hc
-    | cons a rest ih =>
-      obtain ⟨n', c'⟩ := a
-      simp only [dupName, Bool.or_eq_false_iff] at hnodup
-      simp only [List.mem_cons, Prod.mk.injEq] at hc
-      rcases hc with ⟨rfl, rfl⟩ | hc
-      · simp [firstCons]
-      · have hne : ¬ n' = k := by
-          intro e; subst e
-          have := List.any_eq_false.mp hnodup.1 (n', cid) hc
-          simp at this
-        simp only [firstCons, hne, if_false]
-        exact ih hnodup.2 hc
+  rw [bindGet_mem b hdist k v hkv]
   unfold consFirstOK at h
   rw [List.all_eq_true] at h
   have := h (k, v) hkv
-  simp only [hfirst] at this
-  exact this
-
+  simp only [List.all_eq_true] at this
+  apply this cid
+  simp only [consFor, Bool.false_eq_true, if_false, List.mem_map, List.mem_filter, decide_eq_true_eq]
+  exact ⟨(k, cid), ⟨hc, rfl⟩, rfl⟩
 
 /-- without a static hit and outside the `cfall` class, the reference choice is the best pattern match -/
 theorem ref_is_rho (sat : Nat → Bytes → Bool) (R : List Route) (m : Bytes) (p : RPath)
